@@ -102,17 +102,18 @@ def core_aggregate(ks, vs, nulls, n, fn):
     return True, {{}}
 
 
-def core_sort(ks, vs, nulls, n, d1, d2):
+def core_sort(ks, vs, nulls, n, d1, d2, single=False):
     rows = _rows(ks, vs, nulls, n)
     src = [dict(r) for r in rows]
-    got, log = _call('dataSort', [src, [['kk', d1], ['vv', d2]]])
+    sorts = [['kk', d1]] if single else [['kk', d1], ['vv', d2]]
+    got, log = _call('dataSort', [src, sorts])
     info = {{'rows': repr(rows), 'desc': [d1, d2], 'result': repr(got)[:300], 'log': log[:2]}}
     if not isinstance(got, list) or sorted(r['id'] for r in got) != list(range(n)):
         info['clause'] = 'dataSort must return a permutation of the rows'
         return False, info
 
     def cmp(r1, r2):
-        for f, d in (('kk', d1), ('vv', d2)):
+        for f, d in sorts:
             c = value_compare(r1[f], r2[f])
             if c:
                 return -c if d else c
@@ -288,7 +289,7 @@ def plan(tier, seed, workdir):
     import bare_script.library as L
     p = Plan('C19', 'exploration')
     p.encode(D.aggregate_data, D.sort_data, D.top_data, D.join_data, D.filter_data, D.add_calculated_field, D.validate_data, L._data_parse_csv)
-    timeout = 100 if tier == 'quick' else 1200
+    timeout = 150 if tier == 'quick' else 1200
     nmax = 2 if tier == 'quick' else 3
     kmax = 4 if tier == 'quick' else 6
     vmax = 2 if tier == 'quick' else 3
@@ -314,7 +315,8 @@ def plan(tier, seed, workdir):
                           f'core_aggregate([k0, k1, k2], [v0, v1, v2], [nul == 1, nul == 2, nul == 3], {n}, {fn})'))
         tasks.append((f'sort_n{n}', f'{K3}, {V3}, nul: int, d1: bool, d2: bool', kpre(n) + vpre(n) + [f'0 <= nul <= {n}'],
                       f'core_sort([k0, k1, k2], [v0, v1, v2], [nul == 1, nul == 2, nul == 3], {n}, d1, d2)'))
-        tasks.append((f'top_n{n}', f'{K3}, cnt: int, flt: bool, bycat: bool', kpre(n) + ['1 <= cnt <= 3'],
+        tasks.append((f'sort1_n{n}', f'{K3}, d1: bool', kpre(n), f'core_sort([k0, k1, k2], [0, 0, 0], [False, False, False], {n}, d1, False, True)'))
+        tasks.append((f'top_n{n}', f'{K3}, cnt: int, flt: bool, bycat: bool', kpre(n) + ['1 <= cnt <= 2', 'bycat or k0 == 0'],
                       f'core_top([k0, k1, k2], [0, 0, 0], [False, False, False], {n}, cnt, flt, bycat)'))
         tasks.append((f'filter_n{n}', f'{V3}, nul: int, th: int', vpre(n) + [f'0 <= nul <= {n}'],
                       f'core_filter([v0, v1, v2], [nul == 1, nul == 2, nul == 3], {n}, th)'))
